@@ -80,8 +80,9 @@ func (d *DemaStrategy) Compute(c <-chan *asset.Snapshot) <-chan strategy.Action 
 	})
 
 	// DEMA starts only after a full periods for each EMA used.
-	actions = helper.Skip(actions, d.Dema2.IdlePeriod())
-	actions = helper.Shift(actions, d.Dema2.IdlePeriod(), strategy.Hold)
+	idlePeriod := max(d.Dema1.IdlePeriod(), d.Dema2.IdlePeriod())
+	actions = helper.Skip(actions, idlePeriod)
+	actions = helper.Shift(actions, idlePeriod, strategy.Hold)
 
 	return actions
 }
